@@ -254,7 +254,7 @@ def Cont.xconvFrom (p : Pool) (self other : Cont) : Except Abort (Pool × Cont) 
 
 /-- size of the data array a matrix built from a layout allocates -/
 def layoutElems (kind : Nat) (sidx : List Nat) : Option Nat :=
-  if kind = 2 then sidx[3]?
+  if kind = 2 || kind = 6 then sidx[3]?
   else if kind = 3 then (sidx[3]?).map (· * 4)
   else match sidx[1]?, sidx[4]? with
     | some r, some k => some (r * k)
@@ -335,6 +335,9 @@ deriving Repr
 
 def State.init : State := { pool := [], slots := List.replicate 8 none, lays := List.replicate 4 none }
 
+/-- the empty runtime with any number of container / layout slots (boundary-size stream: 300 containers) -/
+def State.initN (n m : Nat) : State := { pool := [], slots := List.replicate n none, lays := List.replicate m none }
+
 def State.slot (s : State) (a : Nat) : Option Cont := (s.slots[a]?).join
 def State.lay (s : State) (l : Nat) : Option Layout := (s.lays[l]?).join
 def State.setSlot (s : State) (a : Nat) (c : Option Cont) : State := { s with slots := s.slots.set a c }
@@ -372,8 +375,8 @@ def bandUsed (r noff : Nat) : Nat :=
 
 def elemPtr0 (c : Cont) : Ptr := c.elems.headD .null
 
-/-- `SparseLayoutId` of a matrix kind: 0 = lt_csr (CSR, BCSR), 1 = lt_banded -/
-def layKind (kind : Nat) : Nat := if kind = 4 then 1 else 0
+/-- `SparseLayoutId` of a matrix kind: 0 = lt_csr (CSR, BCSR), 1 = lt_banded, 2 = lt_cscr -/
+def layKind (kind : Nat) : Nat := if kind = 4 then 1 else if kind = 6 then 2 else 0
 
 /-- the arrays a (possibly absent) layout object holds -/
 def layoutInds : Option Layout → List Ptr
@@ -540,7 +543,7 @@ def step (s : State) (op : Op) : Except Abort State :=
     match s.slot a with
     | none => .error .badop
     | some ca =>
-      if l ≥ s.lays.length || ca.kind < 2 || ca.kind > 4 then .error .badop
+      if l ≥ s.lays.length || ca.kind < 2 || ca.kind > 6 || ca.kind = 5 then .error .badop
       else
         if !layCompat (s.lay l) (layKind ca.kind) ca.it then .error .badop
         else match incrAll s.pool ca.inds with
@@ -562,7 +565,7 @@ def step (s : State) (op : Op) : Except Abort State :=
         -- a live target keeps its kind and data type (`m = layout`), a fresh one is built as requested (`M(layout)`)
         let k := ((s.slot a).map (·.kind)).getD kind
         let d := ((s.slot a).map (·.dt)).getD dt
-        if k < 2 || k > 4 || ((k = 4) != (L.lk = 1)) then .error .badop
+        if k < 2 || k > 6 || k = 5 || layKind k != L.lk then .error .badop
         else if mlayBad (s.slot a) L then .error .badop
         else match Cont.fromLayout s.pool (s.slot a) k d L fill with
           | .error e => .error e
